@@ -507,6 +507,12 @@ func (srv *Server) serveUDP(l net.PacketConn) error {
 	lUDP, isUDP := l.(*net.UDPConn)
 	readerPC, canPacketConn := reader.(PacketConnReader)
 	if !isUDP && !canPacketConn {
+		// The server never ran: no serve loop will close srv.shutdown, so
+		// do not leave it marked as started for Shutdown to wait on.
+		srv.lock.Lock()
+		srv.started = false
+		srv.lock.Unlock()
+		close(srv.shutdown)
 		return &Error{err: "PacketConnReader was not implemented on Reader returned from DecorateReader but is required for net.PacketConn"}
 	}
 
